@@ -223,8 +223,10 @@ def judge_and_compare(out, prop, lines, st, mism, cfg, source):
     mine = [f for f in j.findings if prop in f.props]
     if st.get("mem"):
         jm = oracle.judge(lines, [a[0] for a in st["mem"]])
-        if prop == "C15":
-            mine += [f for f in jm.findings]
+        for f in jm.findings:
+            if prop in f.props or prop == "C15":
+                f.backend = "mem"
+                mine.append(f)
     ins = []
     for m in mism:
         out.disagreements += 1
@@ -258,10 +260,15 @@ def shrink(scratch, lines, still_fails, budget=60):
     return cur
 
 
-def oracle_fails_on(scratch, prop, lines):
-    res = corr.replay_impl(scratch, lines)
+def oracle_fails_on(scratch, prop, lines, backend=None):
+    if any(l.startswith("reopen") for l in lines):
+        backend = None
+    res = corr.replay_impl(scratch, lines, backend=backend)
     j = oracle.judge(lines, [a[0] for a in res])
-    return [f for f in j.findings if prop in f.props]
+    out = [f for f in j.findings if prop in f.props or (prop == "C15" and backend == "mem")]
+    for f in out:
+        f.backend = backend or "file"
+    return out
 
 
 def run(prop, tier, seed, scratch, build):
@@ -337,9 +344,10 @@ def run(prop, tier, seed, scratch, build):
             if line not in out.known:
                 out.known.append(line)
             continue
-        small = shrink(scratch, lines, lambda c: bool(oracle_fails_on(scratch, prop, c))) if tier == "quick" or reported == 0 else lines
-        fs = oracle_fails_on(scratch, prop, small) or [f]
-        out.violation({"kind": "oracle", "lines": small, "finding": fs[0].to_json(), "how": "bin/replay <this file>"})
+        be = getattr(f, "backend", None)
+        small = shrink(scratch, lines, lambda c: bool(oracle_fails_on(scratch, prop, c, be))) if tier == "quick" or reported == 0 else lines
+        fs = oracle_fails_on(scratch, prop, small, be) or [f]
+        out.violation({"kind": "oracle", "backend": be or "file", "lines": small, "finding": fs[0].to_json(), "how": "bin/replay <this file>"})
         reported += 1
         if reported >= 2:
             break
